@@ -146,6 +146,7 @@ def gen_cases(ctx, n: int) -> list[Case]:
     out: list[Case] = []
     for _ in range(n):
         text, names = gen_doc(rng)
+        canonical_text = text
         kind = "canonical"
         r = rng.random()
         if r < 0.12:
@@ -188,6 +189,14 @@ def gen_cases(ctx, n: int) -> list[Case]:
         args: list[str] = []
         if cmd == "set":
             args = [gen_npath(rng, names), rng.choice(VALUES + ["", "1 2", "{", "-1", "[", '"unterminated'])]
+            if names and rng.random() < 0.15:
+                # a `set` of the value the binding already has (the edit text equals the plain rebuild)
+                import re as _re
+
+                nm = rng.choice(names)
+                m = _re.search(r"^\s*(?:\{ )?" + _re.escape(nm) + r" = (.*?);", canonical_text, _re.M)
+                if m:
+                    args = [nm, m.group(1)]
         elif cmd == "rm":
             args = [gen_npath(rng, names)]
         if cmd != "test" and rng.random() < 0.04:
@@ -235,6 +244,11 @@ def fixed_cases() -> list[Case]:
         Case("rm", [" a"], b"{ a = 1; }\n", "canonical"),              # arguments reach the library verbatim
         Case("set", ["a ", "2"], b"{ a = 1; }\n", "canonical"),
         Case("set", ["a", " 2\n"], b"{ a = 1; }\n", "canonical"),
+        # a `set` that changes nothing, on input the tool would re-lay out (the edit text is still the library's)
+        Case("set", ["a", "1"], b"{a=1;}\n", "non-canonical"),
+        Case("set", ["a", "1"], b"{ a = 1; }\n\n\n", "two-final-newlines"),
+        Case("set", ["a.b", "1"], b"{ a  =  { b=1; }; }\n", "non-canonical"),
+        Case("set", ["a", "1"], b"{ a = 1; }", "no-final-newline"),
     ]
     return c
 
